@@ -232,10 +232,15 @@ func runC12(c *Ctx) {
 	}
 	// the retry loop tests the same sentinel
 	tests := false
-	for _, b := range rin.Blocks {
-		for _, in := range b.Instrs {
-			if call, ok := in.(*ssa.Call); ok && isStd(&call.Call, "errors", "Is") && prog.Short(globalLoad(call.Call.Args[1])) == "pkg/apis/sessions.ErrLockNotObtained" {
-				tests = true
+	for fn := range c.staticReach(rin, 2) { // the loop may live in a helper of refreshSessionIfNeeded
+		if prog.Short(prog.FnPkg(fn).Path()) != "pkg/middleware" {
+			continue
+		}
+		for _, b := range fn.Blocks {
+			for _, in := range b.Instrs {
+				if call, ok := in.(*ssa.Call); ok && isStd(&call.Call, "errors", "Is") && prog.Short(globalLoad(call.Call.Args[1])) == "pkg/apis/sessions.ErrLockNotObtained" {
+					tests = true
+				}
 			}
 		}
 	}
